@@ -114,6 +114,33 @@ class Ctx:
         self.zy = {}
 
 
+def evaluate_case(mod, ctx, scn):
+    """mod.evaluate, plus: when the instrumented build stops a session at a sanitizer report (which is C15's business
+    and is reported there), the question of this property is still open for that case; the uninstrumented build of
+    the same tree answers it.  What a case does depends on the case alone."""
+    ev = mod.evaluate(ctx, scn)
+    if (getattr(mod, "RERUN_PLAIN_AFTER_SANITIZER", False) and not ev.violations and ev.counters.get("term:sanitizer")
+            and ctx.default_flavour != "plain"):
+        if "plain" not in ctx.builds:
+            ctx.builds["plain"] = build.ensure_build("plain")
+        old = ctx.default_flavour
+        ctx.default_flavour = "plain"
+        try:
+            ev2 = mod.evaluate(ctx, scn)
+        finally:
+            ctx.default_flavour = old
+        for v in ev2.violations:
+            v.message = "[uninstrumented build; the ASan build of this session stops at a sanitizer report] " + v.message
+        ev.violations.extend(ev2.violations)
+        ev.hashes.extend(ev2.hashes)
+        ev.cov.update(ev2.cov) if hasattr(ev.cov, "update") else ev.cov.extend(ev2.cov)
+        ev.counters["rerun_plain_after_sanitizer"] += 1
+        for k, n in ev2.counters.items():
+            if k.startswith(("probe:", "fault:")):
+                ev.counters[k] += n
+    return ev
+
+
 # ------------------------------------------------------------------- workers
 _worker = {}
 
@@ -134,7 +161,7 @@ def _worker_chunk(args):
         rng = Rng(seed)
         try:
             scn = mod.gen(rng, tier, i)
-            ev = mod.evaluate(ctx, scn)
+            ev = evaluate_case(mod, ctx, scn)
             if isinstance(scn, dict) and scn.get("family"):
                 ev.counters["family:%s%s" % (scn["family"], ("/" + scn["spend_kind"]) if scn.get("spend_kind") else "")] += 1
         except proto.ZygoteDied as e:
@@ -207,7 +234,7 @@ def shrink(ctx, mod, scn, cls, budget=400, wall_s=90.0):
             b[0] = 0
             return False
         try:
-            ev = mod.evaluate(ctx, s)
+            ev = evaluate_case(mod, ctx, s)
         except Exception:
             return False
         return cls in ev.classes()
@@ -268,7 +295,7 @@ def replay(path, mods):
         sys.stderr.write("cannot build: %s\n" % e)
         return 2
     try:
-        ev = mod.evaluate(ctx, doc["scenario"])
+        ev = evaluate_case(mod, ctx, doc["scenario"])
     finally:
         ctx.close()
     cls = tuple(doc["class"])
@@ -361,13 +388,13 @@ def run_check(mod, tier, mods_for_replay=None):
                 ke = known_entry(known, cls)
                 scn = v["scenario"]
                 small, cost = shrink(ctx, mod, scn, cls, budget=60 if ke else 400)
-                ev1 = mod.evaluate(ctx, small)
-                ev2 = mod.evaluate(ctx, small)
+                ev1 = evaluate_case(mod, ctx, small)
+                ev2 = evaluate_case(mod, ctx, small)
                 if cls not in ev1.classes() or ev1.hashes != ev2.hashes:
                     # fall back to the unshrunk scenario before giving up
                     small = scn
-                    ev1 = mod.evaluate(ctx, small)
-                    ev2 = mod.evaluate(ctx, small)
+                    ev1 = evaluate_case(mod, ctx, small)
+                    ev2 = evaluate_case(mod, ctx, small)
                     if cls not in ev1.classes() or ev1.hashes != ev2.hashes:
                         sys.stderr.write("determinism gate failed for %r (case %d seed %d)\n" % (cls, i, seed))
                         machinery_broken = True
